@@ -431,8 +431,12 @@ class SciPyOptimizer(Optimizer):
 
         if compute_functions or compute_gradients:
             self._cached_variables = variables.copy()
-            compute_functions = compute_functions or self._config.optimizer.speculative
-            compute_gradients = compute_gradients or self._config.optimizer.speculative
+            # Methods that do not use gradients should never evaluate them:
+            speculative = (
+                self._config.optimizer.speculative and self._method not in _NO_GRADIENT
+            )
+            compute_functions = compute_functions or speculative
+            compute_gradients = compute_gradients or speculative
             new_function, new_gradient = self._compute_functions_and_gradients(
                 variables,
                 compute_functions=compute_functions,
